@@ -666,6 +666,8 @@ func RunPublishProgram(p *Program) *Result {
 				pr := sys.Pubs[s.Batch]
 				w.Publish(&pr)
 			}
+		case "pubrace":
+			w.PubRace(s)
 		case "mutate":
 			if s.Batch < len(sys.Muts) {
 				m := sys.Muts[s.Batch]
@@ -685,6 +687,131 @@ func RunPublishProgram(p *Program) *Result {
 		}
 	}
 	return w.Res
+}
+
+// PubRace: two publishes in flight at once that have one id in common (a producer retrying a batch while its
+// first attempt is still being served, or two producers that chose the same id). Every statement of the publish
+// handlers and both sides of the store calls are scheduling points; the choice list decides who proceeds. What
+// holds in every interleaving (C15, all-or-nothing): a publish answered 2xx has every one of its items in the
+// queue exactly once, a publish answered anything else has left none of the items that only it carries, and
+// the contested id is there at most once. Runs only without queue limits (an eviction by the other publish
+// would be legitimate) and is the last step of its program (the model does not follow it).
+func (w *PublishWorld) PubRace(s Step) {
+	if w.Spec.MaxDepth > 0 || w.Spec.pubPolicy().directOff || w.Spec.pubPolicy().needActor || w.Spec.pubPolicy().needRequestID {
+		return
+	}
+	var r *RouteSpec
+	for i := range w.Spec.Routes {
+		rr := &w.Spec.Routes[i]
+		if !rr.PublishOff && !rr.DirectOff && !rr.ManagedOff && rr.App == "" && len(rr.targets()) > 0 && !w.Spec.pubPolicy().modeForbidden(rr) && rr.Channel == "" {
+			r = rr
+			break
+		}
+	}
+	if r == nil {
+		return
+	}
+	w.Res.Ops++
+	target := r.targets()[0]
+	type wire struct {
+		ID         string `json:"id"`
+		Route      string `json:"route"`
+		Target     string `json:"target,omitempty"`
+		PayloadB64 string `json:"payload_b64"`
+	}
+	w.seq++
+	shared := fmt.Sprintf("pub-%03d-contested", w.seq)
+	mk := func(own []string, sharedAt int) ([]byte, []string) {
+		var items []wire
+		var ids []string
+		k := 0
+		for i := 0; i <= len(own); i++ {
+			id := shared
+			if i != sharedAt {
+				if k >= len(own) {
+					break
+				}
+				id = own[k]
+				k++
+			}
+			ids = append(ids, id)
+			items = append(items, wire{ID: id, Route: r.Path, Target: target, PayloadB64: base64.StdEncoding.EncodeToString([]byte("race-" + id))})
+		}
+		b, _ := json.Marshal(map[string]any{"items": items})
+		return b, ids
+	}
+	ownA := []string{fmt.Sprintf("pub-%03d-a1", w.seq), fmt.Sprintf("pub-%03d-a2", w.seq)}
+	ownB := []string{fmt.Sprintf("pub-%03d-b1", w.seq)}
+	atA, atB := 1+s.Batch%2, 0
+	if s.Pad {
+		atB = 1
+	}
+	bodyA, idsA := mk(ownA, atA)
+	bodyB, idsB := mk(ownB, atB)
+	hdr := w.pubHeaders(&PubReq{Token: "ok"})
+	reqA, errA := NewRequest("POST", "/messages/publish", "admin.internal", "127.0.0.1:9", hdr, bodyA)
+	reqB, errB := NewRequest("POST", "/messages/publish", "admin.internal", "127.0.0.1:9", hdr, bodyB)
+	if errA != nil || errB != nil {
+		return
+	}
+	tasks := []*Task{w.Start("pubrace", w.Admin, reqA), w.Start("pubrace", w.Admin, reqB)}
+	methods := []string{"LookupMessages", "EnqueueBatch", "Enqueue"}
+	for _, m := range methods {
+		w.armedStore[m], w.armedStore[m+".after"] = true, true
+	}
+	w.Sched.SetArmed(func(l string) bool {
+		return strings.HasPrefix(l, "admin.Server.handleMessagesPublish") || strings.HasPrefix(l, "store.")
+	})
+	w.Sched.DetectBlocked = true
+	k := w.Sched.InterleaveBlocking(tasks, s.Sched)
+	w.Sched.SetArmed(nil)
+	w.Sched.DetectBlocked = false
+	for _, m := range methods {
+		delete(w.armedStore, m)
+		delete(w.armedStore, m+".after")
+	}
+	if k != "done" {
+		if k == "deadlock" {
+			w.add("pubrace.deadlock", "C15", "admin/publish/race", "two concurrent publishes are stuck waiting for one another")
+			return
+		}
+		w.Res.Trouble = "pubrace: " + k + " " + w.Sched.Trouble
+		return
+	}
+	stA, stB := w.finish(tasks[0], "done").Status, w.finish(tasks[1], "done").Status
+	if w.Sched.Switches > 1 {
+		w.Res.probe("pubrace.interleaved")
+	}
+	items, err := w.Listing()
+	if err != nil {
+		w.Res.Trouble = "pubrace: listing: " + err.Error()
+		return
+	}
+	have := map[string]int{}
+	for _, it := range items {
+		have[it.ID]++
+	}
+	w.Res.logf("publish race: A %v -> %d, B %v -> %d", idsA, stA, idsB, stB)
+	loc := "admin/publish/race"
+	judge := func(name string, st int, ids []string) {
+		ok := st >= 200 && st < 300
+		for _, id := range ids {
+			switch {
+			case ok && have[id] != 1:
+				w.add("C15.accepted.missing", "C15,C01", loc, "publish %s was answered %d but its item %q is in the queue %d times", name, st, id, have[id])
+			case !ok && id != shared && have[id] != 0:
+				w.add("C15.refused.stored", "C15", loc, "publish %s was answered %d (refused) but its item %q is in the queue: the batch was not all-or-nothing", name, st, id)
+			}
+		}
+	}
+	judge("A", stA, idsA)
+	judge("B", stB, idsB)
+	if have[shared] > 1 {
+		w.add("C15.duplicate.stored", "C15,C02", loc, "the contested id %q is in the queue %d times", shared, have[shared])
+	}
+	if (stA >= 200 && stA < 300) && (stB >= 200 && stB < 300) {
+		w.add("C15.duplicate.accepted", "C15", loc, "two publishes carrying the same id %q were both answered 2xx (%d, %d)", shared, stA, stB)
+	}
 }
 
 // ---- generator ---------------------------------------------------------------
@@ -969,6 +1096,20 @@ func GenPublishProgram(t *rapid.T, mutations bool) *Program {
 		default:
 			p.Steps = append(p.Steps, Step{Op: "advance", D: rapid.SampledFrom([]time.Duration{time.Second, time.Minute, 2 * time.Minute}).Draw(t, "d")})
 		}
+	}
+	if rapid.IntRange(0, 3).Draw(t, "pubrace?") == 0 {
+		// end with two publishes in flight at once that have one id in common
+		st := Step{Op: "pubrace", Batch: rapid.IntRange(0, 1).Draw(t, "pubrace.at"), Pad: rapid.Bool().Draw(t, "pubrace.b")}
+		type seg struct{ who, n int }
+		segs := rapid.SliceOfN(rapid.Custom(func(t *rapid.T) seg {
+			return seg{rapid.IntRange(0, 1).Draw(t, "who"), rapid.SampledFrom([]int{1, 2, 3, 5, 8, 13, 21, 34, 55, 89}).Draw(t, "len")}
+		}), 0, 8).Draw(t, "pubrace.sched")
+		for _, sg := range segs {
+			for i := 0; i < sg.n && len(st.Sched) < 300; i++ {
+				st.Sched = append(st.Sched, sg.who)
+			}
+		}
+		p.Steps = append(p.Steps, st)
 	}
 	p.Sys, _ = json.Marshal(sys)
 	return p
